@@ -487,13 +487,8 @@ Definition xfield_init (rec : layout -> xinit -> resz) (sub : layout) (x : xinit
       | XMap _ => rec sub x
       | XVal _ => Errz 4
       | XConst v c => if is_union sub && (1 <? width c) then Errz 5 else Errz 4      (* len(init) *)
-      | XDConst l' raw =>
-          if is_union sub then
-            match l' with
-            | Array _ n => if 1 <? Z.of_nat n then Errz 5 else eqchk l' raw
-            | _ => Errz 4                       (* len() of a non-array lib.data.Const *)
-            end
-          else eqchk l' raw
+      | XDConst l' raw => eqchk l' raw        (* UnionLayout.const skips len() for a lib.data.Const; then
+                                                 Layout.const: same layout passes through, else ValueError *)
       end
   end.
 
